@@ -448,8 +448,9 @@ def _unparse(n):
 
 class Summary(object):
     """gated effect summary of one function (helpers inlined)"""
-    def __init__(self, py, modname, qual, opaque=(), depth=4, inline_module_funcs=False, assume=None, inline_only=None, func=None):
+    def __init__(self, py, modname, qual, opaque=(), depth=4, inline_module_funcs=False, assume=None, inline_only=None, func=None, index=False):
         self.py = py
+        self.want_index = index
         self.modname = modname
         self.mod = py.mod(modname)
         self.qual = qual
@@ -917,6 +918,15 @@ class Summary(object):
         """emit 'call' effects for the calls that remain in a prepared expression"""
         if expr is None:
             return
+        if self.want_index:
+            # constant subscripts `base[k]` evaluated by this expression: 'index' effects (target = base text, value = k)
+            for sub in ast.walk(expr):
+                if isinstance(sub, ast.Subscript) and isinstance(getattr(sub, 'ctx', None), ast.Load):
+                    ok, k = self.fold(sub.slice, fr)
+                    if ok and isinstance(k, int) and not isinstance(k, bool):
+                        g0 = _inner_guard(self, expr, sub, env, fr, pc)
+                        for g, n in self.alts(sub.value, env, conj(pc, g0)):
+                            self.emit('index', _unparse(n), str(k), conj(pc, g0, g), sub, fr, vnode=n)
         for c in _calls_outer_first(expr):
             nm = P.call_name(c)
             if (nm in _BUILTINS and nm != 'setattr') or (isinstance(c.func, ast.Attribute) and isinstance(c.func.value, ast.Constant)):
@@ -1371,7 +1381,7 @@ def _inner_guard(summ, root, node, env, fr, pc):
 
 def summarise(ctx, modname, qual, **kw):
     key = ('gsa', modname, qual, tuple(sorted(kw.get('opaque', ()))), kw.get('depth', 4), kw.get('inline_module_funcs', False),
-           tuple(sorted(kw['inline_only'])) if kw.get('inline_only') is not None else None)
+           tuple(sorted(kw['inline_only'])) if kw.get('inline_only') is not None else None, kw.get('index', False))
     cache = ctx.__dict__.setdefault('_gsa_cache', {})
     if key not in cache:
         cache[key] = Summary(ctx.py, modname, qual, **kw)
